@@ -539,6 +539,8 @@ func c01Matrix() []c01cell {
 	for i, set := range [][]string{
 		{"/"}, {"/a", "/a/"}, {"/a/{x}", "/a/{x}/b", "/a/b"}, {"/s/{shop}/p", "/s/shop/q"}, {"/a-b", "/a_b"}, {"/a/b", "/a_b"}, {"/{x}", "/{x}/{y}", "/{x}/y"},
 		{"/a/{x}/", "/a/{x}"}, {"/A", "/a"}, {"/v1/items/{item_id}/parts/{part-id}"}, {"/a.b/c"}, {"/x/{id}", "/x/{id}/ids"}, {"/get", "/post"}, {"/api", "/client"},
+		// a literal child and a variable child of one node that both go on (the literal is tried first, then the variable)
+		{"/shops/mine/pets", "/shops/{shop}/pets"}, {"/u/me/a/b", "/u/{id}/a/c", "/u/{id}"}, {"/a/b/c", "/a/{x}/c", "/a/{x}/d/{y}"},
 	} {
 		sp := c01Base()
 		for _, raw := range set {
